@@ -452,7 +452,20 @@ def check_program(src, g):
     g2['probe'] = make_probe(log)
     g2['cc'] = make_cc(log, [True, False])
     model = impl.parse_valid(src, d)
-    res = contained('program', lambda: impl.bs.execute_script(model, {'globals': g2, 'logFn': lambda m: None, 'maxStatements': 5000}), d)
+
+    def run():
+        try:
+            return impl.bs.execute_script(model, {'globals': g2, 'logFn': lambda m: None, 'maxStatements': 5000})
+        except MemoryError:
+            # a generated program that doubles a string / array in nested loops until the shard's address-space net is hit: exhausting the
+            # host is outside the property (the core discards the case)
+            raise
+    try:
+        res = contained('program', run, d)
+    except Violation as v:
+        if v.bucket.startswith('escaped:MemoryError'):
+            raise MemoryError() from v
+        raise
     if res[0] == 'ok' and not is_value(res[1]):
         raise Violation('program returned %r, which is not a BareScript value' % (res[1],), d, 'not-a-value')
     return res
